@@ -105,7 +105,7 @@ def run_config(prog, cfg):
             values = (1, 2) if struct else (-1, 0)
             bad = None
             for v in values:
-                hits = assume.explore(f, db, di, subj, v, lambda b_, i_, e_, env=None: "success", origin_callid=de.get("id"), from_entry=False)
+                hits = assume.explore(f, db, di, subj, v, lambda b_, i_, e_, env=None: "success", origin_callid=de.get("id"), from_entry=False, subject_return_ok=False)
                 for kind, rb, ri, re, path, lost in hits:
                     if kind == "abort":
                         continue
